@@ -161,7 +161,7 @@ func runC04(c *wk.Ctx) {
 			}
 		}
 		// (e) deep nesting
-		if idx%40 == 0 {
+		if idx%40 == 0 || idx < int64(len(gen.TrickyShapes())) {
 			for _, asMap := range []bool{false, true} {
 				deep := gen.DeepNest(2000, asMap)
 				for _, op := range c04Ops {
